@@ -3,10 +3,10 @@ package main
 // C12 — parsing and matching never crash; comments and rejected lines are inert.
 
 import (
-	"os"
 	"fmt"
 	"go/token"
 	"go/types"
+	"os"
 	"sort"
 	"strings"
 
@@ -21,7 +21,7 @@ func init() {
 			"(no residual check in -d=ssa/check_bce), else by the checker's linear prover (facts from the gated reach condition, library post-conditions, loop lemmas, declared helper contracts proved at every call site; entailment by Fourier-Motzkin), " +
 			"else by a documented residual entry; explicit panics, Must* calls, unchecked type assertions and integer divisions are listed and must be absent. R2 (NIL): nil-able pointer fields are dereferenced only under a nil guard, through nil-safe methods, " +
 			"or under an establishing contract. R3: every loop is a range, a counted loop or has a declared variant that is checked structurally; no recursion. R4: blank and comment lines return (nil, nil) before any constructor runs; the scanner accepts a line only " +
-			"for rule != nil, err == nil and not ignored. R5: constructors store the given text and list id. R6: the lazy pattern compile uses the error-returning compile and marks the rule invalid. R7: the scanner reads complete lines (no buffer-size truncation). A constructor whose body runs in place through an unexported helper is judged like the call (R4/R5). R3 proves a loop that continues with s[k:] terminating by refuting k <= 0 against the exit conditions of the scans that produced k. R6 is judged with the compile routine expanded into the pattern check: every receiver of MatchString is the stored non-nil expression or the result of a compile without error; a failed compile marks the rule invalid and the check answers false.",
+			"for rule != nil, err == nil and not ignored. R5: constructors store the given text and list id. R6: the lazy pattern compile uses the error-returning compile and marks the rule invalid. R7: the scanner reads complete lines (no buffer-size truncation). A constructor whose body runs in place through an unexported helper is judged like the call (R4/R5). R3 proves a loop that continues with s[k:] terminating by refuting k <= 0 against the exit conditions of the scans that produced k. R6 is judged with the compile routine expanded into the pattern check: every receiver of MatchString is the stored non-nil expression or the result of a compile without error; a failed compile marks the rule invalid and the check answers false. R7 looks for the read calls in everything the scanner's methods reach inside the package; a loop of package filterlist that consumes from a buffered reader and is left when the reader reports no data has a variant (R3).",
 		Trusted:     []string{"cmd/compile's prove pass (sound static analyser) for 'compiler' verdicts", "library post-conditions table (strings.Index*, io.Reader.Read, HasPrefix/HasSuffix length facts)", "regexp.Compile returns a non-nil *Regexp iff err == nil; RE2 matching is linear and cannot crash"},
 		Assumptions: []string{"'inserting noise lines leaves results equal' is derived from R4 + offset accounting (C11.R2), not observed", "stack depth and time are library concerns"},
 	})
